@@ -253,10 +253,6 @@ func (svc *service) writeMessage(msg message.Message) (int, error) {
 	)
 
 	verifMark(verifMarkWrite, svc)
-	if svc.out == nil {
-		return 0, ErrBufferNotReady
-	}
-
 	// This is to serialize writes to the underlying buffer. Multiple goroutines could
 	// potentially get here because of calling Publish() or Subscribe() or other
 	// functions that will send messages. For example, if a message is received in
@@ -271,6 +267,12 @@ func (svc *service) writeMessage(msg message.Message) (int, error) {
 	// FIXME: Try to find a better way than a mutex...if possible.
 	svc.wmu.Lock()
 	defer svc.wmu.Unlock()
+
+	// Checked under the mutex: stop() of this service may run concurrently
+	// with a delivery from another connection and resets the buffer.
+	if svc.out == nil {
+		return 0, ErrBufferNotReady
+	}
 
 	buf, wrap, err = svc.out.WriteWait(l)
 	if err != nil {
